@@ -37,8 +37,8 @@ for prop in sorted(os.listdir(OUT)):
         if "PATCH DOES NOT APPLY" in txt or not m:
             dropped.append((sid, "patch does not apply to the current tree"))
             continue
-        e0 = re.search(r"exit=(\d+)", m.group(1))
-        e1 = re.search(r"exit=(\d+)", m.group(2))
+        e0 = re.search(r"^exit=(\d+)", m.group(1), re.M)
+        e1 = re.search(r"^exit=(\d+)", m.group(2), re.M)
         if not (e0 and e1) or e0.group(1) != "0" or e1.group(1) == "0" or e1.group(1) == "124":
             dropped.append((sid, f"demo outcome unchanged={e0.group(1) if e0 else '?'} patched={e1.group(1) if e1 else '?'} (needs 0 / non-zero)"))
             continue
